@@ -74,8 +74,25 @@ func vh_C11_connect_reply_first() {
 		}
 	}
 	if connectAt >= 0 {
-		// Known finding C11-node-subscribe-during-connect: see known_findings.json.
-		vKnown("C11-node-subscribe-during-connect", other == 1 && connectAt > 0)
+		// Known findings (see known_findings.json): connectCmd registers the
+		// connection in the hub before it writes the connect reply, so three
+		// kinds of frames can overtake the reply. Each region requires that
+		// everything in front of the reply is of exactly that kind.
+		before := func(kind string) bool {
+			if connectAt <= 0 {
+				return false
+			}
+			for k := 0; k < connectAt; k++ {
+				r, _ := vDecoded(tr.frames[k]).(*protocol.Reply)
+				if len(vFrameKind(r)) < len(kind) || vFrameKind(r)[:len(kind)] != kind {
+					return false
+				}
+			}
+			return true
+		}
+		vKnown("C11-node-subscribe-during-connect", other == 1 && before("frame: subscribe push"))
+		vKnown("C11-publication-during-connect", other == 0 && !positioned && before("frame: publication push"))
+		vKnown("C11-disconnect-during-connect", (other == 2 || other == 4) && before("frame: disconnect push"))
 		vAssert(connectAt == 0, "connect-reply-is-first-message/racer="+vRacerName(other))
 	} else {
 		// closed before the reply was written: nothing but a disconnect push may be there
